@@ -23,6 +23,7 @@ func init() {
 		Run: runC06,
 		Controls: []Control{
 			{Name: "cluster-id-default-applied-to-the-attributes-only", File: "protocols/bgp/server/fsm_address_family.go", Old: "\t\tClusterID:            f.fsm.peer.clusterID,\n", New: "\t\tClusterID:            f.fsm.peer.routerID,\n", Expect: "registered-loop-value-is-the-stamped-one"},
+			{Name: "per-nlri-copy-written-by-hand", File: "protocols/bgp/server/fsm_address_family.go", Old: "\t\tp := path.Copy()\n\t\tp.BGPPath.PathIdentifier = n.PathIdentifier\n", New: "\t\tp := &route.Path{Type: path.Type, LTime: path.LTime, BGPPath: &route.BGPPath{BGPPathA: path.BGPPath.BGPPathA.Copy(), ASPath: path.BGPPath.ASPath, ASPathLen: path.BGPPath.ASPathLen, Communities: path.BGPPath.Communities, LargeCommunities: path.BGPPath.LargeCommunities}}\n\t\tp.BGPPath.PathIdentifier = n.PathIdentifier\n", Expect: "hand-written-copy-names-every-field"},
 			{Name: "replace-chain-drops-hidden-gate", File: "routingtable/adjRIBIn/adj_rib_in.go", Old: "\t\t\t// Ineligible paths are never announced, whatever the policy says\n\t\t\tif path.IsHidden() {\n\t\t\t\tcontinue\n\t\t\t}\n", New: "", Expect: "hidden-gate"},
 			{Name: "reannouncement-shortcut-skips-verdict", File: "routingtable/adjRIBIn/adj_rib_in.go", Old: "\t// Bail out if this path is considered ineligible\n", New: "\tif len(oldPaths) == 1 && oldPaths[0].IsHidden() && oldPaths[0].Equal(p) {\n\t\treturn nil\n\t}\n", Expect: "stored-path-has-verdict"},
 			{Name: "refcounter-swap-wrong-way", File: "util/refcounter/refcounter_uint32.go", Old: "\t\t\tcopy(itemList[i:], itemList[i+1:])\n\t\t\titemList = itemList[:]\n\t\t\tr.items = itemList[:len(itemList)-1]\n", New: "\t\t\tlast := len(itemList) - 1\n\t\t\titemList[last] = itemList[i]\n\t\t\tr.items = itemList[:last]\n", Expect: "refcounter-removes-matched-entry"},
@@ -70,6 +71,7 @@ func notHiddenFact(f *core.Fn, facts []core.Fact, obj types.Object, hidden *type
 }
 
 func runC06(c *core.Ctx) {
+	handWrittenCopiesAreComplete(c, "hand-written-copy-names-every-field")
 	loopValuesRegisteredAreTheOnesStamped(c)
 	p := c.P
 	hidden := p.Field("route", "Path", "HiddenReason")
